@@ -322,25 +322,27 @@ def doRoundtrip (world : String) : String :=
     | _, .error e => bad s!"tokens:{e}"
 
 /-- `c18`: the recorded artifacts are read with the Lean format model -/
+def doC18Key (didHex didBytes signer verifier sig : String) : Option String :=
+  match Bytes.ofHex didHex, Bytes.ofHex didBytes, Bytes.ofHex signer, Bytes.ofHex verifier, Bytes.ofHex sig with
+  | some ds, some db, some sg, some vf, some sb =>
+    match DidM.parse ds with
+    | none => some "recorded DID string does not parse in the model"
+    | some d =>
+      if DidM.bytes d != db then some "DID bytes differ from the model's"
+      else if DidM.toString d != ds then some "DID string does not print back in the model"
+      else if d.key && DidM.sigCode [] == 0 && (DidM.sigCode sb != DidM.edDSA && DidM.sigCode sb != DidM.rs256) then some "signature algorithm code"
+      else if DidM.sigRaw sb |>.length |> (· != DidM.sigSize sb) then some "signature framing"
+      else if DidM.sigCode sb == DidM.edDSA then
+        (match DidM.edSignerDecode sg, DidM.edVerifierDecode vf with
+         | some (_, pub), some pub' => if pub == pub' && (db == vf || !d.key) then none else some "Ed25519 key layout"
+         | _, _ => some "Ed25519 key layout does not decode in the model")
+      else none
+  | _, _, _, _, _ => some "hex"
+
 def doC18 (args : List String) (impl : String) : String :=
   let verdict : Option String :=
     match args with
-    | "key" :: didHex :: didBytes :: signer :: verifier :: sig :: [] =>
-      match Bytes.ofHex didHex, Bytes.ofHex didBytes, Bytes.ofHex signer, Bytes.ofHex verifier, Bytes.ofHex sig with
-      | some ds, some db, some sg, some vf, some sb =>
-        match DidM.parse ds with
-        | none => some "recorded DID string does not parse in the model"
-        | some d =>
-          if DidM.bytes d != db then some "DID bytes differ from the model's"
-          else if DidM.toString d != ds then some "DID string does not print back in the model"
-          else if d.key && DidM.sigCode [] == 0 && (DidM.sigCode sb != DidM.edDSA && DidM.sigCode sb != DidM.rs256) then some "signature algorithm code"
-          else if DidM.sigRaw sb |>.length |> (· != DidM.sigSize sb) then some "signature framing"
-          else if DidM.sigCode sb == DidM.edDSA then
-            (match DidM.edSignerDecode sg, DidM.edVerifierDecode vf with
-             | some (_, pub), some pub' => if pub == pub' && (db == vf || !d.key) then none else some "Ed25519 key layout"
-             | _, _ => some "Ed25519 key layout does not decode in the model")
-          else none
-      | _, _, _, _, _ => some "hex"
+    | "key" :: didHex :: didBytes :: signer :: verifier :: sig :: [] => doC18Key didHex didBytes signer verifier sig
     | "did" :: didHex :: didBytes :: [] =>
       match Bytes.ofHex didHex, Bytes.ofHex didBytes with
       | some ds, some db =>
@@ -349,6 +351,27 @@ def doC18 (args : List String) (impl : String) : String :=
         | some d => if DidM.bytes d != db then some "DID bytes differ from the model's"
                     else if DidM.toString d != ds then some "DID string does not print back in the model" else none
       | _, _ => some "hex"
+    | "key" :: didHex :: didBytes :: signer :: verifier :: sig :: sstr :: [] =>
+      -- the stored key text (multibase M) read by the text-form model, then the binary artifacts as above
+      match Bytes.ofHex signer, Bytes.ofHex sstr with
+      | some sg, some st =>
+        if Base64.parseKey st != .ok sg then some "stored key text does not read back to the stored key bytes in the model"
+        else if Base64.formatKey sg != st then some "stored key text is not the model's text of the key bytes"
+        else doC18Key didHex didBytes signer verifier sig
+      | _, _ => some "hex"
+    | kind :: archive :: fmt :: [] =>
+      if kind == "token" || kind == "world" then
+        match Bytes.ofHex archive, Bytes.ofHex fmt with
+        | some a, some f =>
+          if Base64.format a != f then some "stored delegation text is not the model's text of the stored archive"
+          else if Base64.parse f != .payload a then some "stored delegation text does not read back to the stored archive in the model"
+          else
+          match Car.decodeCar CarDriver.H a with
+          | .ok roots bs e => if e then some "recorded archive ends in an error in the model" else if roots.length != 1 then some "archive roots" else if bs.isEmpty then some "archive without blocks" else none
+          | .headerError => some "recorded archive header is refused by the model"
+          | .foreign _ _ => some "recorded archive header is not in canonical form"
+        | _, _ => some "hex"
+      else none
     | kind :: archive :: [] =>
       if kind == "token" || kind == "world" then
         match Bytes.ofHex archive with
